@@ -844,7 +844,10 @@ fn cmd_c10(n: usize) -> (u64, Vec<String>) {
                 if idx[i] + 1 < alphabet.len() { idx[i] += 1; for j in i + 1..idx.len() { idx[j] = 0; } break; }
             }
             if idx.len() > bound { break; }
-            let doc: String = idx.iter().map(|&i| alphabet[i].as_str()).collect();
+            let doc_lf: String = idx.iter().map(|&i| alphabet[i].as_str()).collect();
+            // every document twice: as it is, and without its final line feed
+            for doc in [doc_lf.clone(), doc_lf.strip_suffix('\n').unwrap_or(&doc_lf).to_string()] {
+            if doc.is_empty() && !doc_lf.is_empty() { continue; }
             cases += 1;
             let why = match upd(&doc) {
                 Err(w) => Some(w),
@@ -856,14 +859,16 @@ fn cmd_c10(n: usize) -> (u64, Vec<String>) {
                         if k2 != k || cmds2 != cmds { Some(format!("updated document {u:?} parses to {k2} test cases {cmds2:?}, the original to {k} {cmds:?}")) }
                         else if u2 != u { Some(format!("update is not idempotent: {u:?} -> {u2:?}")) }
                         else if outside(&u) != outside(&doc) { Some(format!("lines outside scrut blocks changed: {:?} -> {:?}", outside(&doc), outside(&u))) }
+                        else if u.ends_with('\n') != doc.ends_with('\n') && !doc.is_empty() { Some(format!("the final line feed changed: document ends in one: {}, updated document: {}", doc.ends_with('\n'), u.ends_with('\n'))) }
                         else { None }
                     }
                 },
             };
             if let Some(w) = why {
                 bad.push(format!("{{\"why\":{},\"doc\":{}}}", jstr(&format!("C10: {w}")), jstr(&doc)));
-                if bad.len() > 10 { break; }
             }
+            }
+            if bad.len() > 10 { break; }
         }
     }
     // targeted documents in which every test passes: `update` has nothing to rewrite, the document must come back byte for byte
